@@ -738,7 +738,7 @@ def _vec_model(sd, struct, py, smin=False):
         if k == "double":
             return gen.f2w64(v)
         if k == "str":
-            return {"s": [ord(c) for c in v]}
+            return {"s": gen.text_bytes(v)}
         if k in ("Array", "DynamicArray"):
             return [go(t["underlying_type"], x) for x in v]
         if k == "Optional":
